@@ -93,7 +93,18 @@ def gen_scenario(ctx, k):
     else:
         d = cfggen.write_config(cfg, cfg_dir(f'c11_{k}'))
         sc.add(*cfggen.bus_lines(cfg, nodes), 'bus node 201.0.0 00000d99000003', 'bus node 1.0.0 00000d99000002' if not any(a == (1, 0, 0) for a, _ in nodes) else 'bus brackets 0',
-               'bus brackets 0', f'start {d} {rng.choice([0, 2])}', 'quiesce')
+               'bus brackets 0')
+        # spontaneous traffic of every kind while the start-up dialogue is under way (node table being read, features being set, system being
+        # enabled): the receiver handles it with the locks it always takes, the starting thread must not be holding them while it waits
+        for j in range(rng.randrange(2, 9)):
+            trig = C(rng.choice(['MSG_NODETAB_GETNEXT', 'MSG_NODETAB_GETNEXT', 'MSG_NODETAB_GETALL', 'MSG_FEATURE_SET', 'MSG_SYS_ENABLE', 'MSG_GET_PKT_CAPACITY', 'MSG_CS_SET_STATE']))
+            if rng.random() < 0.6:
+                ad_, t_, data_ = gen_feedback(rng, m, cfg, nodes)
+            else:
+                n_ = rng.choice(['MSG_SYS_ERROR', 'MSG_BOOST_STAT', 'MSG_NODE_NA', 'MSG_LC_NA', 'MSG_VENDOR', 'MSG_BM_CURRENT', 'MSG_ACCESSORY_STATE'])
+                ad_, t_, data_ = (0, 0, 0), C(n_), uplink.payload(rng, n_)
+            sc.add(f'bus inject {trig:02x} {rng.randrange(1, 5)} {model.build_msg(ad_, 0, t_, data_).hex()}')
+        sc.add(f'start {d} {rng.choice([0, 2])}', 'quiesce')
     lines = cross_product(rng, cfg, m, debug)
     ncalls = 0
     for l in lines:
